@@ -96,14 +96,14 @@ Lemma existsb_upd_keep : forall A (f : A -> bool) l i p q,
 Proof.
   intros. destruct (existsb_ex _ _ _ H0) as (j & r & Hj & Hr).
   destruct (Nat.eq_dec j i).
-  - subst. rewrite H in Hj. inversion Hj; subst. destruct H1; try congruence.
-    eapply existsb_nth; [eapply nth_error_upd_same; eauto | auto].
-  - eapply existsb_nth; [rewrite nth_error_upd_other by auto; eauto | auto].
+  - subst. rewrite H in Hj. inversion Hj; subst. destruct H1 as [H1|H1]; [congruence|].
+    apply existsb_nth with (i := i) (p := q); [eapply nth_error_upd_same; exact H | exact H1].
+  - apply existsb_nth with (i := j) (p := r); [rewrite nth_error_upd_other by congruence; exact Hj | exact Hr].
 Qed.
 
 Lemma existsb_upd_new : forall A (f : A -> bool) l i p q,
   nth_error l i = Some p -> f q = true -> existsb f (upd i q l) = true.
-Proof. intros. eapply existsb_nth; [eapply nth_error_upd_same; eauto | auto]. Qed.
+Proof. intros. apply existsb_nth with (i := i) (p := q); [eapply nth_error_upd_same; exact H | exact H0]. Qed.
 
 (* ---- forallb_i --------------------------------------------------------------------- *)
 Lemma forallb_i_spec : forall A (f : nat -> A -> bool) l k,
